@@ -175,7 +175,7 @@ Inductive enc : ttype -> tval -> list N -> Prop :=
     enc TList (VList et vs) (h ++ body)
 | E_set et ec vs h body : tcode et ec -> lhdr ec (N.of_nat (length vs)) h -> enc_elems et vs body ->
     enc TSet (VSet et vs) (h ++ body)
-| E_map_empty : enc TMap (VMap []) [0]
+| E_map_empty l : varint 0 l -> enc TMap (VMap []) l          (* size 0 (possibly padded), no type byte *)
 | E_map kt vt kc vc kvs l body : kvs <> [] -> N.of_nat (length kvs) < 2 ^ 31 ->
     varint (N.of_nat (length kvs)) l -> tcode kt kc -> tcode vt vc -> enc_pairs kt vt kvs body ->
     enc TMap (VMap kvs) (l ++ (16 * kc + vc) :: body)
@@ -451,15 +451,6 @@ Definition spec_encode (v : tval) : list N := spec_encode_val v.
 
 (** Values the protocol can carry (ranges, homogeneous containers); the domain of [spec_encode]. *)
 Fixpoint tval_ok (v : tval) : Prop :=
-  let all := fix all (et : ttype) (vs : list tval) : Prop :=
-    match vs with [] => True | x :: tl => type_of x = et /\ tval_ok x /\ all et tl end in
-  let allp := fix allp (kt vt : ttype) (kvs : list (tval * tval)) : Prop :=
-    match kvs with
-    | [] => True
-    | (k, x) :: tl => type_of k = kt /\ type_of x = vt /\ tval_ok k /\ tval_ok x /\ allp kt vt tl
-    end in
-  let allf := fix allf (fs : list (Z * tval)) : Prop :=
-    match fs with [] => True | (id, x) :: tl => in_range 16 id /\ tval_ok x /\ allf tl end in
   match v with
   | VBool _ => True
   | VByte z => in_range 8 z
@@ -468,12 +459,15 @@ Fixpoint tval_ok (v : tval) : Prop :=
   | VI64 z => in_range 64 z
   | VDouble bits => bits < 2 ^ 64
   | VBinary bs => Forall byte bs /\ N.of_nat (length bs) < 2 ^ 31
-  | VList et vs | VSet et vs => N.of_nat (length vs) < 2 ^ 31 /\ all et vs
-  | VMap kvs => N.of_nat (length kvs) < 2 ^ 31 /\
-                match kvs with
-                | [] => True
-                | (k, x) :: _ => allp (type_of k) (type_of x) kvs
-                end
-  | VStruct fs => allf fs
+  | VList et vs | VSet et vs =>
+      N.of_nat (length vs) < 2 ^ 31 /\
+      fold_right (fun x acc => type_of x = et /\ tval_ok x /\ acc) True vs
+  | VMap kvs =>
+      N.of_nat (length kvs) < 2 ^ 31 /\
+      fold_right (fun (kv : tval * tval) acc =>
+                    let (k, x) := kv in
+                    type_of k = type_of (fst (hd (k, x) kvs)) /\ type_of x = type_of (snd (hd (k, x) kvs)) /\
+                    tval_ok k /\ tval_ok x /\ acc) True kvs
+  | VStruct fs => fold_right (fun (f : Z * tval) acc => let (id, x) := f in in_range 16 id /\ tval_ok x /\ acc) True fs
   | VUuid bs => length bs = 16%nat /\ Forall byte bs
   end.
